@@ -11,7 +11,7 @@ for pt in /verif/mutants/neutral-*.patch; do
   if [ "${1:-}" = "--tests" ]; then
     if (cd "$D" && go test -mod=mod -vet=off -count=1 -timeout 25m ./... > "$D/.test.log" 2>&1); then t="suite-pass"; else t="SUITE-FAIL"; fi
   fi
-  out=$(/verif/bin/iplcheck -repo "$D" -property all -evidence-dir "$D/.ev" -known /verif/known-findings.json -controls '' 2>&1 | sed "s#$D/##g")
+  out=$(${IPLCHECK:-/verif/bin/iplcheck} -repo "$D" -property all -evidence-dir "$D/.ev" -known /verif/known-findings.json -controls '' 2>&1 | sed "s#$D/##g")
   bad=$(echo "$out" | grep -E "^\s+(violated|undecided)|CHECKER-" )
   if [ -z "$bad" ]; then echo "$(basename $pt): silent ($t)"; else echo "$(basename $pt): ALARM ($t)"; echo "$bad" | cut -c1-260; fi
   rm -rf "$D"
